@@ -156,13 +156,13 @@ class World(WsWorld):
         elif d is None:
             if self.dl_open:
                 self.dl_open["reaction"] = None
-            if split and is_server:
+            if split:
                 self.at(t0, "handshake-part", lambda: self.send_handshake(hs, 0.5))
         else:
             t = max(t0, t0 + cfg["oht"] + d)
             if self.dl_open:
                 self.dl_open["reaction"] = t
-            if split and is_server:
+            if split:
                 self.at(t0, "handshake-part", lambda: self.send_handshake(hs, 0.5))
             self.at(t, "handshake", lambda: self.send_handshake(hs, 1.0))
         self.plan_made = False
@@ -182,15 +182,19 @@ class World(WsWorld):
 
     def send_handshake(self, hs, frac):
         e = self.e
-        if e.is_server:
-            if frac < 1.0:
-                self.hs_cut = len(hs) // 2
-                self.hs_first_sent = True
-                self.peer_send_now(hs[:self.hs_cut])
-                return
-            data = hs[self.hs_cut:] if self.hs_first_sent else hs
-        else:
-            data = self.server_response_bytes(bytes(self.peer.received))
+        if not e.is_server:
+            # (the response needs the client's key: computed once, when first sent)
+            if getattr(self, "hs_resp", None) is None:
+                self.hs_resp = self.server_response_bytes(bytes(self.peer.received))
+            hs = self.hs_resp
+        if frac < 1.0:
+            # only part of the handshake arrives now (the cut may fall anywhere, also inside the status line)
+            self.hs_cut = self.run.ch.pick((len(hs) // 2, 5, 17, len(hs) - 1), "hs-cut")
+            self.hs_first_sent = True
+            self.run.probe("partial-handshake-then-wait")
+            self.peer_send_now(hs[:self.hs_cut])
+            return
+        data = hs[self.hs_cut:] if self.hs_first_sent else hs
         self.peer_send_now(data)
         if e.p._st == 3 and not self.plan_made:
             self.plan_open_phase()
